@@ -12,6 +12,10 @@ MC_Few == { Cl("pL", "pL", "zero"),      Cl("nL", "nL", "small"),
             Cl("z",  "z",  "zero"),      Cl("ne", "pe", "large"),
             Cl("pL", "z",  "large"),     Cl("nL", "pL", "large") }
 
+(* third series of the replayed 3-variable instance *)
+MC_Few3 == { Cl("nL", "nL", "large"), Cl("pL", "pL", "small"), Cl("nL", "nL", "rel_small"), Cl("pe", "ne", "large") }
+
+MC_GridThree    == << AllClasses, MC_Few, MC_Few3 >>
 MC_GridQuick    == << AllClasses, MC_Few >>
 MC_GridFull2    == << AllClasses, AllClasses >>
 MC_GridFull3    == << AllClasses, AllClasses, AllClasses >>
